@@ -32,6 +32,21 @@ const PREFIXES: [&str; 9] = ["", "-", "// ", "\u{e9}", "\u{2713}\u{2713} ", "\u{
 
 fn hostile_source(r: &mut StdRng) -> Vec<u8> {
     let mut ls: Vec<String> = vec![];
+    if r.gen_bool(0.15) {
+        // two tags really stored at the same time, then lines in which their names overlap / nest
+        let pairs = [("ab", "bc", "abc"), ("FIRST_", "_LAST", "FIRST_LAST"), ("\u{e9}a", "a\u{e9}", "\u{e9}a\u{e9}"), ("T", "xT", "xTT"), ("ab", "ba", "abab")];
+        let (a, b, line) = pairs[r.gen_range(0..pairs.len())];
+        ls.push(format!("// TXTPP#tag {a}"));
+        ls.push(format!("// TXTPP#write {}", [b, "v", "", "l1"][r.gen_range(0..4)]));
+        ls.push(String::new());
+        ls.push(format!("// TXTPP#tag {b}"));
+        ls.push(format!("// TXTPP#write {}", [a, "w", ""][r.gen_range(0..3)]));
+        ls.push(String::new());
+        ls.push(line.to_string());
+        if r.gen_bool(0.5) {
+            ls.push(format!("{a} {b}"));
+        }
+    }
     let n = r.gen_range(0..14);
     for _ in 0..n {
         let ws: String = (0..r.gen_range(0..3)).map(|_| if r.gen_bool(0.6) { [" ", "\t"][r.gen_range(0..2)] } else { UBLANKS[r.gen_range(0..UBLANKS.len())] }).collect();
